@@ -4,7 +4,9 @@ import (
 	"fmt"
 	"testing/synctest"
 
+	"github.com/mosaicnetworks/babble/src/node"
 	_state "github.com/mosaicnetworks/babble/src/node/state"
+	"github.com/mosaicnetworks/babble/src/peers"
 )
 
 /*******************************************************************************
@@ -148,6 +150,48 @@ func (c *Cluster) asyncTick(a, b *SimNode, s *Step) {
 			c.checkSuspendRule(a, _state.Babbling)
 		}
 	})
+}
+
+// ffWindowIntrusion: the node is inside Node.fastForward, between the reset of
+// its hashgraph and the processing of the anchor block's receipts, and holds
+// no lock there. In production its other routines and its peers run on: here a
+// babbling peer pushes the events the node lacks at exactly that instant (H9
+// yield point ff.between). The shipped code is still CatchingUp and refuses.
+func (c *Cluster) ffWindowIntrusion(nd *node.Node) {
+	if c.inShadow || !c.inner.Bool(0.6) {
+		return
+	}
+	var a *SimNode
+	for _, n := range c.nodes {
+		if n.node == nd {
+			a = n
+		}
+	}
+	if a == nil || a.byz {
+		return
+	}
+	cands := []*SimNode{}
+	for _, b := range c.nodes {
+		if b != a && b.running() && !b.silent && !b.byz && !b.isObserver && b.state() == _state.Babbling {
+			cands = append(cands, b)
+		}
+	}
+	if len(cands) == 0 {
+		return
+	}
+	b := cands[c.inner.Intn(len(cands))]
+	p := &peers.Peer{NetAddr: a.addr, PubKeyHex: a.pubHex, Moniker: a.moniker}
+	if fp := findPeer(b, a); fp != nil {
+		p = fp
+	}
+	known := a.core().KnownEvents()
+	saved := c.net.legs
+	c.net.legs = map[string]string{}
+	c.stats.probe("ff-window-push")
+	if err := b.node.SimPush(p, known); err == nil {
+		c.stats.probe("ff-window-push-accepted")
+	}
+	c.net.legs = saved
 }
 
 var _ = fmt.Sprint
